@@ -71,9 +71,41 @@ fn extreme() -> BoxedStrategy<u64> {
     .boxed()
 }
 
+/// State whose MDS row sum for row `r`, reduced lazily as `lo + hi * (2^32 - 1)`, lands just below
+/// 2^64 (a non-canonical representation), with lane 0 = 2^61 - 1 - a so that 8 * lane0 (the diagonal
+/// term) is just below 2^64 too. Boundary class derived from the specification's MDS vectors:
+/// two lanes are solved from 15 x + 41 y = target - (contribution of the other lanes).
+fn mds_wrap_state() -> BoxedStrategy<[u64; 12]> {
+    (0usize..12, 0u64..4, 8u128..=12, 0u128..4, uniform12(0u64..0x1_0000_0000), any::<u16>(), 0u128..1000)
+        .prop_map(|(r, a, h, c, small, mask, k)| {
+            let mut s = [0u64; 12];
+            for i in 0..12 {
+                if mask >> i & 1 == 1 {
+                    s[i] = small[i];
+                }
+            }
+            s[0] = (1u64 << 61) - 1 - a;
+            let (ix, iy) = ((r + 1) % 12, (r + 2) % 12); // circulant coefficients 15 and 41 in row r
+            let (ix, iy) = if ix == 0 || iy == 0 { return s } else { (ix, iy) };
+            s[ix] = 0;
+            s[iy] = 0;
+            let fixed: u128 = (0..12).map(|i| pref::MDS_CIRC[i] as u128 * s[(i + r) % 12] as u128).sum();
+            let target: u128 = (h << 64) + ((1u128 << 64) - h * (EPS as u128) - 1 - c);
+            let d = target - fixed; // fixed < 42 * 2^61 + 10 * 41 * 2^32 < 6 * 2^64
+            // 15 x + 41 y = d  with  x = x0 + 41 k,  x0 = d * 15^-1 mod 41 (15 * 11 = 165 = 1 mod 41)
+            let x = (d % 41) * 11 % 41 + 41 * k;
+            let y = (d - 15 * x) / 41;
+            s[ix] = x as u64;
+            s[iy] = y as u64;
+            s
+        })
+        .boxed()
+}
+
 /// 12-element state, any representation per element, several correlated shapes.
 fn state12() -> BoxedStrategy<[u64; 12]> {
     prop_oneof![
+        1 => mds_wrap_state(),
         6 => uniform12(any_repr()),
         1 => any_repr().prop_map(|x| [x; 12]),
         2 => uniform12(noncanonical()),
